@@ -140,8 +140,8 @@ array_diff(void *buf1, void *buf2, uint32 tot_cnt, const char *name1, const char
     float32  f_diff;
     int32    i4_diff, i4_max_diff = 0;
     int32    i4_max_val1 = 0, i4_min_val1 = 0, i4_max_val2 = 0, i4_min_val2 = 0;
-    int16    i2_diff;
-    int8     c_diff;
+    int32    i2_diff; /* differences are kept in a wider type than the data: */
+    int32    c_diff;  /* truncating them can turn a real difference into 0 or less */
     int      is_fill1, is_fill2;
     int      n_stats = 0;
     char    *debug;
@@ -240,7 +240,7 @@ array_diff(void *buf1, void *buf2, uint32 tot_cnt, const char *name1, const char
             i1ptr1 = (int8 *)buf1;
             i1ptr2 = (int8 *)buf2;
             for (i = 0; i < tot_cnt; i++) {
-                c_diff   = (int8)abs(*i1ptr1 - *i1ptr2);
+                c_diff   = abs(*i1ptr1 - *i1ptr2);
                 is_fill1 = fill1 && (*i1ptr1 == *((int8 *)fill1));
                 is_fill2 = fill2 && (*i1ptr2 == *((int8 *)fill2));
                 if (!is_fill1 && !is_fill2) {
@@ -320,7 +320,7 @@ array_diff(void *buf1, void *buf2, uint32 tot_cnt, const char *name1, const char
             i2ptr1 = (int16 *)buf1;
             i2ptr2 = (int16 *)buf2;
             for (i = 0; i < tot_cnt; i++) {
-                i2_diff  = (int16)abs(*i2ptr1 - *i2ptr2);
+                i2_diff  = abs(*i2ptr1 - *i2ptr2);
                 is_fill1 = fill1 && (*i2ptr1 == *((int16 *)fill1));
                 is_fill2 = fill2 && (*i2ptr2 == *((int16 *)fill2));
                 if (debug) {
@@ -402,7 +402,9 @@ array_diff(void *buf1, void *buf2, uint32 tot_cnt, const char *name1, const char
             i4ptr1 = (int32 *)buf1;
             i4ptr2 = (int32 *)buf2;
             for (i = 0; i < tot_cnt; i++) {
-                i4_diff  = abs(*i4ptr1 - *i4ptr2);
+                /* the difference of two 32-bit values does not fit 32 bits: saturate */
+                d_val1  = fabs((float64)(*i4ptr1) - (float64)(*i4ptr2));
+                i4_diff = (d_val1 > (float64)INT_MAX) ? INT_MAX : (int32)d_val1;
                 is_fill1 = fill1 && (*i4ptr1 == *((int32 *)fill1));
                 is_fill2 = fill2 && (*i4ptr2 == *((int32 *)fill2));
                 if (!is_fill1 && !is_fill2) {
